@@ -2,8 +2,14 @@ SPECIFICATION Spec
 CONSTANTS
   Limit = 4
   MaxRhoLev = 3
+  Vars = {1, 2, 3}
 INVARIANT C01_OptimalOnlyIfConverged
 INVARIANT C02_IterBound
 INVARIANT C02_IterLimitOnlyAtLimit
 PROPERTY C16_PenaltyMonotone
+PROPERTY EventFlipsOne
+PROPERTY OnlyEventsMoveTheSet
+PROPERTY BoundEventsPin
+PROPERTY SignChangeReleases
+PROPERTY PenaltyOnlyOnPenalty
 CHECK_DEADLOCK FALSE
